@@ -63,7 +63,7 @@ pub fn check_sequence(obs: &mut dyn Iterator<Item = bool>, liveness_tail: bool) 
     let mut prev_ok = false;
     let mut longest_fail_run = 0u64;
     let mut steps = 0u64;
-    let mut step = |ok: bool, imp: &mut StatusState, rf: &mut RefAuto, fail_run: &mut u64, prev_ok: &mut bool, steps: &mut u64| -> Result<R, (String, String)> {
+    let step = |ok: bool, imp: &mut StatusState, rf: &mut RefAuto, fail_run: &mut u64, prev_ok: &mut bool, steps: &mut u64| -> Result<R, (String, String)> {
         let text = imp.update_state(ok);
         let got = parse_report(&text).ok_or_else(|| ("health:unknown-report".to_string(), format!("report '{}' at step {}", text, steps)))?;
         let want = rf.step(ok);
